@@ -330,3 +330,23 @@ def c11_fitter_partial_node(f, replay):
         frag, b, a = node.content, b - 1, a - 1
     return False
 
+
+
+def c04_same_type_mark_order(f, replay):
+    """C04 open finding: a mark type that does not exclude itself (`excludes: ""`, e.g. comments with ids) may occur several
+    times on one node, ordered by insertion.  Removing one of them and re-adding it (the inverse of the RemoveMarkStep that
+    `remove_mark` records; or of an AddMarkStep that displaced it) puts it *behind* the others of its type: same marks,
+    different order, and `Node.eq` / `Mark.same_set` are order-sensitive.  Range-step analogue of case (c) of
+    C04-node-mark-inverse; upstream `addToSet` behaves the same.  Class: the culprit step of a failed history undo is an add- or
+    remove-mark step, and some inline node in its range (in the document it was applied to) carries two or more marks of the
+    step's mark type."""
+    st = replay.get("step") or {}
+    if st.get("stepType") not in ("addMark", "removeMark"):
+        return False
+    from prosemirror.model import Node
+    schema = _schema_of(replay)
+    doc = Node.from_json(schema, replay.get("culprit_doc") or replay["doc"])
+    ty = (st.get("mark") or {}).get("type")
+    hit = []
+    doc.nodes_between(st["from"], st["to"], lambda n, p, par, i: hit.append(1) if n.is_inline and sum(1 for m in n.marks if m.type.name == ty) >= 2 else None)
+    return bool(hit)
